@@ -14,10 +14,24 @@ Import ListNotations.
 Local Open Scope nat_scope.
 
 (* the executable decision (gate len > p, look-back index -p-1, current index -1) is the documented rule *)
+(* NOTE on zeros: [dev] uses Coq's totalised [/]; at M_{t-p} = 0 (relative) or variance_{t-p} = 0 (variance) this
+   statement relates two totalised expressions and carries no information about the implementation's IEEE
+   behaviour there (deviation inf / nan, never below the tolerance); those cases are decided by the check.
+   C18_rule_guarded below is the form with the guard written out and no division in the specification. *)
 Theorem C18_rule_is_documented_rule : forall (c : criterion) (p : nat) (tol : R) (hist : list (R * R)),
   es_rule ROps c p tol hist = true <-> should_stop hist p tol c.
 Proof. exact es_rule_iff_should_stop. Qed.
 Print Assumptions C18_rule_is_documented_rule.
+
+Theorem C18_rule_guarded : forall (c : criterion) (p : nat) (tol : R) (hist : list (R * R)),
+  (length hist >= p + 1 -> nz_guard c (nth (length hist - 1 - p) hist (0%R, 0%R))) ->
+  (es_rule ROps c p tol hist = true <-> should_stop_nodiv hist p tol c).
+Proof. exact es_rule_guarded. Qed.
+Print Assumptions C18_rule_guarded.
+
+Theorem C18_nz_guard_example : nz_guard Relative (5%R, 0%R) /\ nz_guard Variance (5%R, 2%R) /\ ~ nz_guard Relative (0%R, 1%R).
+Proof. exact nz_guard_example. Qed.
+Print Assumptions C18_nz_guard_example.
 
 (* 1. the run stops at the first checked epoch at which should_stop holds, and at no earlier one;
       otherwise it completes.  For every evaluator kind / getter pair that can read the monitored quantity. *)
@@ -66,6 +80,8 @@ Proof. exact never_self_comparison. Qed.
 Print Assumptions C18_never_self_comparison.
 
 (* 3. constructor table *)
+(* definitional (this and the next four): the constructor table restates the model; the exception CLASSES are a
+   modelling detail, the property only says "refused"; evidence = the constructor table and the paired sessions of the check *)
 Theorem C18_variance_refused_for_metrics : forall crit : name,
   normalize crit = n_variance -> es_construct KMetric crit = Err TypeError.
 Proof. exact variance_refused_for_metrics. Qed.
